@@ -27,6 +27,10 @@ fn main() {
                 std::process::exit(2)
             }
         },
+        "probe" => {
+            let n: usize = args.get(3).and_then(|s| s.parse().ok()).unwrap_or(1);
+            std::process::exit(jpv::props::c08::probe_main(&args[2], n))
+        }
         "run" => {
             let p = match find(&args[2]) {
                 Some(p) => p,
@@ -51,6 +55,9 @@ fn main() {
                     _ => usage(),
                 }
                 i += 1;
+            }
+            if p.id == "C08" {
+                jpv::props::c08::arm_call_limit(jpv::props::c08::BULK_CALL_LIMIT);
             }
             let code = run_prop(p, &RunCfg { seed, thorough }, sub.as_deref());
             std::process::exit(code)
